@@ -1,6 +1,7 @@
 import BoltonsVerif.Common
 import BoltonsVerif.C01.Model
 import BoltonsVerif.C01.Concrete
+import BoltonsVerif.C01.Own
 /-
 C01 line protocol.  One line = one whole history on the two registers `s`, `t`:
     <nk> <op> <op> ...
@@ -27,6 +28,11 @@ Output: one `;`-separated record per op: `<ret> <dump of every reader of s> T<pa
 The history runs on the concrete layer (`Concrete.lean`: dict + pointer-level linked list + `_map`,
 `hstep3`); the readers walk its abstraction (`HState3.abs`), as `iteritems(multi=True)` walks the
 linked list; `__reversed__` (`R`) walks the `PREV` pointers of the heap.
+The ownership layer (`Own.lean`) runs next to it for register `s`: which list OBJECT the dict stores under each key,
+which objects the caller holds.  After every op the caller does what the harness does - it appends the junk value 9 to
+the list it handed to `addlist` (token `addlistL`: the argument was a list object) and reverses it, to the list `popall`
+returned, and to one `getlist(k)` result per probed key - and `OW` prints the storage read through the heap afterwards
+(compound operations - update, constructors, copies, swap - rebuild the storage with new list objects throughout).
 -/
 namespace C01.Driver
 open BV C01
@@ -192,13 +198,78 @@ def query? (st : HState Nat Nat) (tok : String) : Option String :=
       | (_, out) => pure (showOut out)
   | _ => none
 
-def stepTok (nk : Nat) (st : HState3 Nat Nat) (tok : String) : Option (HState3 Nat Nat × String) :=
-  match parseOp? st.abs tok with
+
+/-! ### the ownership layer next to the history -/
+
+def junk : Nat := 9
+
+/-- a compound operation rebuilt the storage: every key holds a new list object of its own -/
+def ownRebuild (vals : List (Nat × List Nat)) (o : Own Nat Nat) : Own Nat Nat :=
+  vals.foldl (fun acc kv => ⟨acc.d ++ [(kv.1, acc.next)], dset acc.next kv.2 acc.heap, acc.next + 1, acc.caller⟩)
+    ⟨[], o.heap, o.next, o.caller⟩
+
+/-- the storage part of one op on the ownership layer (`st` = the state BEFORE the op, `st'` after) -/
+def ownTok (st st' : HState Nat Nat) (o : Own Nat Nat) (tok : String) : Own Nat Nat :=
+  let lastKey : Option Nat := if st.s.vals.isEmpty then none else st.s.cells.getLast?.map (·.1)
+  let r : Option (Own Nat Nat) :=
+    match splitOnChar tok ':' with
+    | ["add", k, v] => do pure (o.add (← k.toNat?) (← v.toNat?))
+    | ["addlistL", k, vs] => do
+        let k ← k.toNat?
+        let vs ← natList? vs
+        let (o1, a) := o.callerNew vs                 -- the caller's list object
+        let o2 := o1.addlistFrom k a
+        pure (o2.callerWrite a (junk :: (o2.look a).reverse))     -- `arg.append(JUNK); arg.reverse()`
+    | ["addlist", k, vs] => do pure (o.addlistVals (← k.toNat?) (← natList? vs))
+    | ["set", k, v] => do pure (o.setitem (← k.toNat?) (← v.toNat?))
+    | ["del", k] => do pure (o.delKey (← k.toNat?))
+    | ["sd", k, v] => do
+        let k ← k.toNat?
+        let v ← v.toNat?
+        pure (if (dget k o.d).isSome then o else o.setitem k v)
+    | ["popall", k, _] => do
+        let (o1, r) := o.popall (← k.toNat?)
+        pure (match r with
+          | some i => o1.callerWrite i (o1.look i ++ [junk])       -- `r.append(JUNK)`
+          | none => o1)
+    | ["pop", k, _] => do pure (o.popall (← k.toNat?)).1
+    | ["poplast", k, _] =>
+        if k = "-" then (match lastKey with | some k => some (o.poplast k) | none => some o)
+        else do pure (o.poplast (← k.toNat?))
+    | ["popitem"] => (match lastKey with | some k => some (o.popall k).1 | none => some o)
+    | ["clear"] => some o.clear
+    | ["eq", _] => some o
+    | ["sorted", _, _] => some o
+    | ["sv", _, _] => some o
+    | ["newx"] => some o
+    | ["rej"] => some o
+    | ["addlistx", _, _] => some o
+    | _ => none
+  match r with
+  | some o' => o'
+  | none => ownRebuild st'.s.vals o
+
+/-- what the harness does in every dump: one `getlist(k)` per probed key, junk appended to the result -/
+def ownDumpScribbles (nk : Nat) (o : Own Nat Nat) : Own Nat Nat :=
+  (List.range nk).foldl (fun acc k =>
+    let (o1, i) := acc.getlist k
+    o1.callerWrite i (o1.look i ++ [junk])) o
+
+def showOwn (o : Own Nat Nat) : String :=
+  ",".intercalate ((sortBy (fun a b => decide (a.1 ≤ b.1)) o.vals).map fun kv => s!"{kv.1}={showVals kv.2}")
+
+def stepTok (nk : Nat) (st : HState3 Nat Nat) (o : Own Nat Nat) (tok : String) :
+    Option (HState3 Nat Nat × Own Nat Nat × String) :=
+  let tokM := if tok.startsWith "addlistL:" then "addlist:" ++ (tok.drop 9).toString else tok
+  match parseOp? st.abs tokM with
   | some op =>
     let r := hstep3 st op
-    some (r.1, s!"{if tok = "rej" then "XReject" else showOut r.2} {dump nk r.1}")
-  | none => match query? st.abs tok with
-    | some out => some (st, s!"{out} {dump nk st}")
+    let o' := ownDumpScribbles nk (ownTok st.abs r.1.abs o tok)
+    some (r.1, o', s!"{if tok = "rej" then "XReject" else showOut r.2} {dump nk r.1} OW{showOwn o'}")
+  | none => match query? st.abs tokM with
+    | some out =>
+      let o' := ownDumpScribbles nk (ownTok st.abs st.abs o tok)
+      some (st, o', s!"{out} {dump nk st} OW{showOwn o'}")
     | none => none
 
 def handle (line : String) : String :=
@@ -206,13 +277,13 @@ def handle (line : String) : String :=
   | nk :: toks =>
     match nk.toNat? with
     | some nk =>
-      let rec go (st : HState3 Nat Nat) (toks : List String) (acc : List String) : Option (List String) :=
+      let rec go (st : HState3 Nat Nat) (o : Own Nat Nat) (toks : List String) (acc : List String) : Option (List String) :=
         match toks with
         | [] => some acc.reverse
-        | t :: ts => match stepTok nk st t with
-          | some (st', out) => go st' ts (out :: acc)
+        | t :: ts => match stepTok nk st o t with
+          | some (st', o', out) => go st' o' ts (out :: acc)
           | none => none
-      match go HState3.init toks [] with
+      match go HState3.init Own.empty toks [] with
       | some outs => ";".intercalate outs
       | none => "bad-op"
     | none => "bad-op"
